@@ -46,10 +46,14 @@ def as_dt(v):
 
 
 def fuzz_down(v, eps):
+    if eps == 0:
+        return v        # no tolerance: the bound itself, exactly
     return v * ((1 - eps) if v >= 0 else (1 + eps))
 
 
 def fuzz_up(v, eps):
+    if eps == 0:
+        return v
     return v * ((1 + eps) if v >= 0 else (1 - eps))
 
 
